@@ -99,8 +99,19 @@ def verify_contract(c, src_index, unroll=0, timeout_ms=20000, registry=REGISTRY,
             cx.old_heap = run.heap
             cx.entry = dict(p)
             f = it.function_from_real(fn)
-            f._force_sync = True
             q = fn.__qualname__
+            if c.nested:
+                inner = [x for x in ast.walk(fnode) if isinstance(x, (ast.FunctionDef, ast.AsyncFunctionDef)) and x.name == c.nested]
+                if len(inner) != 1:
+                    raise Unsupported(f'{len(inner)} inner functions named {c.nested} in {q}')
+                from .values import Frame, InterpFunction
+                cfr = Frame(f, None, fn.__globals__)
+                cfr.locals.update(c.closure(cx))
+                q = c.nested_qualname
+                a_ = inner[0].args
+                f = InterpFunction(inner[0], cfr, fn.__globals__, q, None, None, [it.eval(d, cfr) for d in a_.defaults], {})
+                registry.under_proof = ('nested', q)
+            f._force_sync = True
             it.loop_specs = {(k if isinstance(k, tuple) else (q, k)): v for k, v in c.loops.items()}
             it.top_qualname = q
             sig_args = list(p.values())
